@@ -251,14 +251,15 @@ def run(ctx):
     ok_abs = len(root_a) == 1 and len(sep_a) == 1 and len(rel_a) == 1 and not other
     why = "appends: " + str([t for _, t in app])
     if ok_abs:
-        gs = [(k, p) for k, p in frc.guards(sep_a[0]) if not is_loop_control_fact(k)]
-        gr = [(k, p) for k, p in frc.guards(rel_a[0]) if not is_loop_control_fact(k)]
+        # facts about the object's state (exit conditions of the earlier loops over purely local counters hold on every path here)
+        gs = [(k, p) for k, p in frc.guards(sep_a[0]) if not is_loop_control_fact(k) and "this->" in k]
+        gr = [(k, p) for k, p in frc.guards(rel_a[0]) if not is_loop_control_fact(k) and "this->" in k]
         # the separator depends on nothing but 'the relative path is not empty'; the relative path always follows root and separator
         if not all(NONEMPTY(k, p) for k, p in gs):
             ok_abs, why = False, "the '/' between root and relative path is appended only under %s" % sorted((k, p) for k, p in gs if not NONEMPTY(k, p))
         elif not (frc.must(rel_a[0], "root") and frc.must(rel_a[0], "sep")):
             ok_abs, why = False, "the relative path can be appended without the root or the '/' before it"
-        elif not frc.must(sep_a[0], "root") or frc.guards(root_a[0]) and [1 for k, p in frc.guards(root_a[0]) if not is_loop_control_fact(k)]:
+        elif not frc.must(sep_a[0], "root") or [1 for k, p in frc.guards(root_a[0]) if not is_loop_control_fact(k) and "this->" in k]:
             ok_abs, why = False, "the root is not appended unconditionally before the '/'"
     ctx.check(ok_abs, "absolute-is-root-slash-relative", "value-shape + must_precede", rcf.loc(sep_a[0]) if sep_a else rcf.loc(),
               "absolute path = root, then '/' + relative path exactly when the relative path is non-empty",
